@@ -128,3 +128,27 @@ pub fn block_on<F: Future>(f: F) -> F::Output {
         }
     }
 }
+
+// An await point of a corpus body: pending while the gate of the polling thread is closed
+// (per thread, so that only the call under test is suspended).
+thread_local! {
+    pub static GATE_OPEN: std::cell::Cell<bool> = std::cell::Cell::new(true);
+}
+pub fn set_gate(open: bool) {
+    GATE_OPEN.with(|g| g.set(open));
+}
+pub struct Gate;
+impl Future for Gate {
+    type Output = ();
+    fn poll(self: Pin<&mut Self>, _cx: &mut Context<'_>) -> Poll<()> {
+        if GATE_OPEN.with(|g| g.get()) { Poll::Ready(()) } else { Poll::Pending }
+    }
+}
+pub fn gate() -> Gate {
+    Gate
+}
+pub fn poll_once<F: Future + ?Sized>(f: Pin<&mut F>) -> Poll<F::Output> {
+    let w = noop_waker();
+    let mut cx = Context::from_waker(&w);
+    f.poll(&mut cx)
+}
